@@ -189,3 +189,50 @@ package etcd
 //@   requires wf_watcher(w) && r != nil && !synced
 //@   modifies inferred:(*watcher).List
 //@   ensures [failed-sync-reads-nothing] !synced ==> shim_reads == old(shim_reads)
+
+// ---- C16: how the shim shapes backend answers into etcd answers ----
+//@ func txnHeader(rev) (result)
+//@   props C16
+//@   ensures [header] result != nil && fresh(result) && result.Revision == rev
+//@ func kvToEtcdKv(kv) (result)
+//@   props C16
+//@   ensures [nil] kv == nil ==> result == nil
+//@   ensures [fields] kv != nil ==> result != nil && fresh(result) && result.Key == kv.Key && result.Value == kv.Value && result.ModRevision == int64(kv.Revision)
+
+// a guarded update is exactly one backend Update of the key, value and expected revision asked for;
+// its answer is shaped as etcd's: on success one put response, otherwise one range response that
+// carries the current key-value (if there is one); header and success flag are the backend's
+//@ pred one_range_with(op, kv) = typeis(op.Response, "*etcdserverpb.ResponseOp_ResponseRange") && asptr(op.Response, "*etcdserverpb.ResponseOp_ResponseRange") != nil && asptr(op.Response, "*etcdserverpb.ResponseOp_ResponseRange").ResponseRange != nil && len(asptr(op.Response, "*etcdserverpb.ResponseOp_ResponseRange").ResponseRange.Kvs) == ite(kv != nil, 1, 0) && (kv != nil ==> asptr(op.Response, "*etcdserverpb.ResponseOp_ResponseRange").ResponseRange.Kvs[0] != nil && asptr(op.Response, "*etcdserverpb.ResponseOp_ResponseRange").ResponseRange.Kvs[0].Key == kv.Key && asptr(op.Response, "*etcdserverpb.ResponseOp_ResponseRange").ResponseRange.Kvs[0].Value == kv.Value && asptr(op.Response, "*etcdserverpb.ResponseOp_ResponseRange").ResponseRange.Kvs[0].ModRevision == int64(kv.Revision))
+//@ func (*backendShim).Update(ctx, rev, key, value, lease) (resp, err)
+//@   props C16
+//@   requires b != nil && b.backend != nil && leader_checked
+//@   modifies ghost.backend_writes ghost.be_op ghost.be_req ghost.be_resp ghost.be_err
+//@   let Q = asref(be_req, "*proto.UpdateRequest")
+//@   let R = asref(be_resp, "*proto.UpdateResponse")
+//@   ensures [one-backend-update-as-asked] backend_writes == old(backend_writes)+1 && be_op == 2 && be_req != nil && Q.Kv != nil && Q.Kv.Key == key && Q.Kv.Value == value && Q.Kv.Revision == uint64(rev) && Q.Lease == lease
+//@   ensures [errors-pass-through] (err == nil) == (be_err == nil) && (err != nil ==> resp == nil)
+//@   ensures [header-and-flag-are-the-backends] err == nil ==> resp != nil && resp.Header != nil && resp.Header.Revision == int64(R.Header.Revision) && resp.Succeeded == R.Succeeded && len(resp.Responses) == 1 && resp.Responses[0] != nil
+//@   ensures [success-is-a-put-response] err == nil && R.Succeeded ==> typeis(resp.Responses[0].Response, "*etcdserverpb.ResponseOp_ResponsePut")
+//@   ensures [failure-carries-the-current-key-value] err == nil && !R.Succeeded ==> one_range_with(resp.Responses[0], R.Kv)
+
+//@ func (*backendShim).Delete(ctx, key, revision) (resp, err)
+//@   props C16
+//@   requires b != nil && b.backend != nil && leader_checked
+//@   modifies ghost.backend_writes ghost.be_op ghost.be_req ghost.be_resp ghost.be_err
+//@   let Q = asref(be_req, "*proto.DeleteRequest")
+//@   let R = asref(be_resp, "*proto.DeleteResponse")
+//@   ensures [one-backend-delete-as-asked] backend_writes == old(backend_writes)+1 && be_op == 3 && be_req != nil && Q.Key == key && Q.Revision == uint64(revision)
+//@   ensures [errors-pass-through] (err == nil) == (be_err == nil) && (err != nil ==> resp == nil)
+//@   ensures [header-and-flag-are-the-backends] err == nil ==> resp != nil && resp.Header != nil && resp.Header.Revision == int64(R.Header.Revision) && resp.Succeeded == R.Succeeded && len(resp.Responses) == 1 && resp.Responses[0] != nil
+//@   ensures [answer-carries-the-key-value-the-backend-returned] err == nil ==> one_range_with(resp.Responses[0], R.Kv)
+
+//@ func (*backendShim).Get(ctx, r) (resp, err)
+//@   props C16
+//@   requires b != nil && b.backend != nil && r != nil && synced
+//@   modifies ghost.backend_reads ghost.be_op ghost.be_req ghost.be_resp ghost.be_err
+//@   let Q = asref(be_req, "*proto.GetRequest")
+//@   let R = asref(be_resp, "*proto.GetResponse")
+//@   ensures [one-backend-get-as-asked] backend_reads == old(backend_reads)+1 && be_op == 4 && be_req != nil && Q.Key == r.Key && Q.Revision == uint64(r.Revision)
+//@   ensures [errors-pass-through] (err == nil) == (be_err == nil) && (err != nil ==> resp == nil)
+//@   ensures [header-is-the-backends] err == nil ==> resp != nil && resp.Header != nil && resp.Header.Revision == int64(R.Header.Revision)
+//@   ensures [count-and-kv] err == nil ==> len(resp.Kvs) == ite(R.Kv != nil, 1, 0) && resp.Count == ite(R.Kv != nil, 1, 0) && (R.Kv != nil ==> resp.Kvs[0] != nil && resp.Kvs[0].Key == R.Kv.Key && resp.Kvs[0].Value == R.Kv.Value && resp.Kvs[0].ModRevision == int64(R.Kv.Revision))
